@@ -148,7 +148,7 @@ def run_text_batch(job):
                 owner = 0
             if owner is None:
                 return {"retry": [c["id"] for c in cases]}
-            ids = _name_fallback(g, ids, cases[owner]) if single else ids
+            ids = _name_fallback(g, ids, cases[owner])
             if not single and 0 in ids:
                 return {"retry": [c["id"] for c in cases]}
             o = obs[cases[owner]["id"]]
